@@ -271,11 +271,40 @@ class Built:
         return ReconciliationOutput(self.input, mapping)
 
 
+def prime_topology(B, solve):
+    """History independence, tree shape.  Two disjoint subtrees of the object tree exchange their places IN PLACE,
+    the input object is solved once (result discarded), and the subtrees are put back exactly where they were
+    (same parents, same child positions).  The run observed afterwards must not remember the first one."""
+    nodes = [n for n in B.otree.traverse("preorder") if n.up is not None]
+    for i in range(len(nodes) - 1, 0, -1):
+        y = nodes[i]
+        inside_y = {id(n) for n in y.traverse()}
+        for x in nodes[:i]:
+            if id(x) in inside_y or id(y) in {id(n) for n in x.traverse()} or x.up is y.up:
+                continue
+            px, py = x.up, y.up
+            ix, iy = px.children.index(x), py.children.index(y)
+            px.children[ix], py.children[iy] = y, x
+            x.up, y.up = py, px
+            try:
+                solve(B.input)
+            except Exception:  # noqa: BLE001 - the priming run is not judged
+                pass
+            px.children[ix], py.children[iy] = x, y
+            x.up, y.up = px, py
+            return True
+    return False
+
+
 def primed(case, solve, **kw):
     """History independence.  When the case carries another cost vector under "prime", the input object
     is first built and solved with THOSE costs, then its cost dictionary is edited in place to the case's
     own costs (the way the package's tests reuse an input); what the package remembers from the first
     solve must not leak into the run that is observed."""
+    if case.get("prime") == "topology":
+        B = Built(case["S"], case["O"], case["costs"], **kw)
+        prime_topology(B, solve)
+        return B
     if not case.get("prime"):
         return Built(case["S"], case["O"], case["costs"], **kw)
     B = Built(case["S"], case["O"], case["prime"], **kw)
